@@ -325,11 +325,13 @@ pub struct GenOpts {
     pub max_methods: usize,
     pub max_errors: usize,
     pub max_fields: usize,
+    /// error parameters use no anonymous struct / enum types (named, basic and container types only)
+    pub plain_error_params: bool,
 }
 
 impl Default for GenOpts {
     fn default() -> Self {
-        GenOpts { resolvable: false, max_depth: 3, idl_keywords: true, rust_keywords: true, max_types: 4, max_methods: 4, max_errors: 3, max_fields: 4 }
+        GenOpts { resolvable: false, max_depth: 3, idl_keywords: true, rust_keywords: true, max_types: 4, max_methods: 4, max_errors: 3, max_fields: 4, plain_error_params: false }
     }
 }
 
@@ -419,6 +421,20 @@ fn gen_ty(t: &mut Tape, o: &GenOpts, depth: usize, avail: &[String], later_ok: &
     }
 }
 
+/// Replace anonymous struct / enum types by `string` (string sets stay).
+pub fn strip_anon(t: &Ty) -> Ty {
+    match t {
+        Ty::Struct(_) | Ty::Enum(_) => Ty::Str,
+        Ty::Array(x) => Ty::Array(Box::new(strip_anon(x))),
+        Ty::Dict(x) => match &**x {
+            Ty::Struct(f) if f.is_empty() => t.clone(),
+            _ => Ty::Dict(Box::new(strip_anon(x))),
+        },
+        Ty::Opt(x) => Ty::Opt(Box::new(strip_anon(x))),
+        other => other.clone(),
+    }
+}
+
 pub fn gen_iface_name(t: &mut Tape) -> String {
     let n = 2 + t.pick(3);
     let mut parts = vec![];
@@ -467,7 +483,12 @@ pub fn gen_idl(t: &mut Tape, o: &GenOpts) -> Idl {
     }
     for _ in 0..ne {
         let n = distinct(ERROR_ORDINARY[t.pick(ERROR_ORDINARY.len())].to_string(), &mut used);
-        let p = gen_fields(t, o, o.max_depth.min(2), &type_names, &[]);
+        let mut p = gen_fields(t, o, o.max_depth.min(2), &type_names, &[]);
+        if o.plain_error_params {
+            for f in p.iter_mut() {
+                f.1 = strip_anon(&f.1);
+            }
+        }
         members.push(Member { name: n, docs: vec![], def: Def::Error(p) });
     }
     // order of appearance: a tape-driven shuffle (identity when the tape is exhausted)
